@@ -20,10 +20,40 @@ EXPECTED_CALLS = {
 }
 
 
+def api_surface(repo):
+    """safe `pub fn`s whose body uses `unsafe`, and the target types of `unsafe impl Collect`, per file (comments stripped)"""
+    out = {'pub_fns_with_unsafe': set(), 'collect_impl_heads': set(), 'pub_fns': set()}
+    API_FILES = ('arena.rs', 'barrier.rs', 'context.rs', 'dynamic_roots.rs', 'gc.rs', 'gc_weak.rs', 'lock.rs', 'slice.rs', 'zst_cache.rs', 'metrics.rs')
+    d = os.path.join(repo, 'src')
+    for f in sorted(os.listdir(d)):
+        if not f.endswith('.rs'):
+            continue
+        s = extract.strip_comments(open(os.path.join(d, f)).read())
+        for m in re.finditer(r'\bpub (?:const )?(?:unsafe )?fn (\w+)', s):
+            if f in API_FILES:
+                out['pub_fns'].add('%s::%s' % (f, m.group(1)))
+        for m in re.finditer(r'\bpub fn (\w+)', s):
+            try:
+                j = s.index('{', m.end()); k = extract.match_close(s, j)
+            except Exception:
+                continue
+            if ';' in s[m.start():j]:
+                continue
+            if re.search(r'\bunsafe\b', s[j:k]):
+                out['pub_fns_with_unsafe'].add('%s::%s' % (f, m.group(1)))
+        for m in re.finditer(r"unsafe impl<[^{]*?>\s*(?:\w+::)*Collect<'gc>\s*for\s*([^{]+?)\s*(?:where[^{]*)?\{", s):
+            t = ' '.join(m.group(1).split())
+            h = re.match(r'(?:\w+::)*(\w+)', t)
+            # tuples, arrays, slices, references, trait objects and macro variables are categories that exist already
+            if h and not t.startswith(('$', '(', '[', '&', 'dyn ')):
+                out['collect_impl_heads'].add(h.group(1))
+    return {k: sorted(v) for k, v in out.items()}
+
+
 def rows(pid, repo, res):
     from common import Undecided
     src = _src(repo)
-    rows, failed = {}, {}
+    rows, failed, und = {}, {}, []
     # I.no_statics (C20): the only way one arena's code could name another arena's memory
     hits, unknown = [], []
     MUT = r'Cell|Atomic|Mutex|RwLock|Once|Lazy|RefCell|UnsafeCell|Rc<|Arc<|Box<|Vec<|Metrics|Context|Gc'
@@ -41,22 +71,22 @@ def rows(pid, repo, res):
     if hits:
         failed['I.no_statics'] = ['shared mutable state found: %s' % hits]
     elif unknown:
-        raise Undecided('inventory: `static` items of a type this check cannot classify as immutable plain data: %s' % unknown)
+        und.append('inventory: `static` items of a type this check cannot classify as immutable plain data: %s' % unknown)
     # I.phase_assignments (C08): every phase change goes through PhaseGuard::{enter, switch}
     inv = (res.get('verus') or {}).get('inventory')
     if inv is not None:
         rows['I.phase_assignments'] = dict(serves=['C08'], kind='inventory', fn='src/context.rs', text='`.phase =` occurs only inside PhaseGuard::enter / PhaseGuard::switch')
         bad = [f for f in inv['phase_assignments'] if f not in ('enter', 'switch')]
         if bad:
-            raise Undecided('inventory: Context.phase is assigned outside PhaseGuard::{enter, switch} (in %s): the X-guard rule no longer covers every phase change' % bad)
+            und.append('inventory: Context.phase is assigned outside PhaseGuard::{enter, switch} (in %s): the X-guard rule no longer covers every phase change' % bad)
         # every fn of impl Context has a row or is a known pure accessor
         known = set(extract.CONTEXT_FNS) | {'new', 'mutation_context', 'finalization_context', 'metrics', 'phase'}
         extra = [f for f in inv['context_fns'] if f not in known]
         if extra:
-            raise Undecided('inventory: impl Context has functions the contracts do not speak about: %s' % extra)
+            und.append('inventory: impl Context has functions the contracts do not speak about: %s' % extra)
         fields = set(inv['context_fields'])
         if fields != {'metrics', 'phase', 'phase_span', 'all', 'sweep', 'sweep_prev', 'root_needs_trace', 'gray', 'gray_again'}:
-            raise Undecided('inventory: struct Context has a different field set than the shim: %s' % sorted(fields))
+            und.append('inventory: struct Context has a different field set than the shim: %s' % sorted(fields))
     # I.reclaim_sites (C03, C04): drop_in_place / dealloc are called only from the sweep, the context drop and the builder drops
     ctx = src.get('context.rs', '')
     rows['I.reclaim_sites'] = dict(serves=['C03', 'C04'], kind='inventory', fn='src/*.rs',
@@ -165,17 +195,82 @@ def rows(pid, repo, res):
                 bad.append('%s is called from %s' % (step, f))
     if bad:
         failed['I.collection_steps'] = ['collection steps outside the driver: %s' % bad]
+    # I.header_writes (C01, C04, C05): the collector's per-object state (colour, live, needs_trace, link) is written only by the functions under
+    # contract: in context.rs by the contracted functions (helpers reachable only from them are inlined by the extractor, which checks that),
+    # outside it only by the builder (needs_trace once at allocation, live once at completion).  Any other writer is code no contract speaks about.
+    rows['I.header_writes'] = dict(serves=['C01', 'C04', 'C05'], kind='inventory', fn='src/*.rs',
+                                   text='GcHeader::set_color / set_live / set_needs_trace / set_next are called only from the contracted functions of src/context.rs (and private helpers reachable only from them) and from the builder in src/gc.rs (needs_trace at allocation, live at completion)')
+    contracted = set(extract.CONTEXT_FNS) | {'drop'}
+    stray = []
+    for f, s_ in src.items():
+        if f == 'gc_ptr.rs':
+            continue
+        for m in re.finditer(r'\.(set_color|set_live|set_needs_trace|set_next)\(', s_):
+            fns = re.findall(r'\bfn (\w+)', s_[:m.start()])
+            encl = fns[-1] if fns else '?'
+            if f == 'context.rs':
+                seen, todo, ok = {encl}, [encl], True
+                while todo:
+                    g = todo.pop()
+                    if g in contracted:
+                        continue
+                    cs = c_callers(g)
+                    if not cs:
+                        ok = False
+                    for c in cs:
+                        if c not in seen:
+                            seen.add(c); todo.append(c)
+                if not ok:
+                    stray.append((f, encl, m.group(1)))
+            elif (f, m.group(1)) not in {('gc.rs', 'set_needs_trace'), ('gc.rs', 'set_live')} or (m.group(1) == 'set_live' and encl != 'assume_init'):
+                stray.append((f, encl, m.group(1)))
+    if stray:
+        und.append('inventory: header state is written by code the contracts do not speak about: %s' % sorted(set(stray)))
+    # I.api_surface: the finite families of Kani rows cover the public API that EXISTS; a new safe public function whose body uses `unsafe`, or
+    # a Collect impl for a new type, is code no row instantiates.  Compared with the surface recorded for the tree the rows were written for.
+    import json
+    basefile = os.path.join(os.path.dirname(os.path.abspath(__file__)), '..', 'contracts', 'api_baseline.json')
+    base = json.load(open(basefile))
+    cur = api_surface(repo)
+    new_api = [x for x in cur['pub_fns_with_unsafe'] if x not in base['pub_fns_with_unsafe']] + \
+              ['new pub fn %s' % x for x in cur['pub_fns'] if x not in base['pub_fns']] + \
+              ['Collect for %s' % x for x in cur['collect_impl_heads'] if x not in base['collect_impl_heads']]
+    rows['I.api_surface'] = dict(serves=['C01', 'C06', 'C16', 'C19'], kind='inventory', fn='src/*.rs',
+                                 text='every `pub fn` of the API files, every safe `pub fn` whose body uses `unsafe`, and every type with a provided `unsafe impl Collect` is one the rows were written for (contracts/api_baseline.json); removals are fine: the properties quantify over the public API, and a new entry point is code no row instantiates')
+    if new_api:
+        und.append('inventory: new public surface that no row instantiates (a safe pub fn using `unsafe`, or a Collect impl for a new type): %s' % new_api)
     # I.zst_no_conjuring (C19): every safe pub fn of ZstCache that returns a Gc<'gc, T> for a caller-chosen T is given a T by the caller
     z = src.get('zst_cache.rs', '')
     rows['I.zst_no_conjuring'] = dict(serves=['C19'], kind='inventory', fn='src/zst_cache.rs',
                                       text="every non-`unsafe` `pub fn` of ZstCache whose return type mentions Gc<'gc, T> for its own type parameter T takes a `T` argument (a T was supplied by the caller)")
     bad = []
-    for m in re.finditer(r'pub (unsafe )?fn (\w+)\s*<([^>]*)>\s*\(([^)]*)\)\s*->\s*([^{]+)\{', z):
-        unsafe_, name, gens, params, ret = m.groups()
-        tps = [g.split(':')[0].strip() for g in gens.split(',') if g.strip() and not g.strip().startswith("'") and not g.strip().startswith('const')]
+    for m in re.finditer(r'pub (unsafe )?fn (\w+)\s*<', z):
+        unsafe_, name = m.group(1), m.group(2)
+        i0 = m.end() - 1
+        # generic parameter list with nested <>, then the parameter list, then the return type up to the body
+        depth, j = 0, i0
+        while j < len(z):
+            if z[j] == '<': depth += 1
+            elif z[j] == '>' and z[j - 1] != '-':
+                depth -= 1
+                if depth == 0: break
+            j += 1
+        gens = z[i0 + 1:j]
+        k0 = z.find('(', j)
+        if k0 < 0: continue
+        k1 = extract.match_close(z, k0, '(', ')')
+        params = z[k0 + 1:k1]
+        b0 = z.find('{', k1)
+        rm = re.match(r'\s*->\s*([^{]+?)\s*(?:where\b[^{]*)?$', z[k1 + 1:b0]) if b0 > 0 else None
+        if not rm: continue
+        ret = rm.group(1)
+        tps = [g.split(':')[0].strip() for g in re.split(r',(?![^<]*>)', gens) if g.strip() and not g.strip().startswith("'") and not g.strip().startswith('const')]
         for tp in tps:
             if re.search(r"Gc<'gc,\s*%s\b" % tp, ret) and not unsafe_ and not re.search(r':\s*%s\b' % tp, params):
-                bad.append(name)
+                if re.search(r'Fn(?:Once|Mut)?\s*\([^)]*\)\s*->\s*%s\b' % tp, params + ' ' + gens + ' ' + z[k1 + 1:b0]):
+                    und.append('inventory: ZstCache::%s takes a closure producing %s instead of a %s: whether it is always called cannot be decided here' % (name, tp, tp))
+                else:
+                    bad.append(name)
     if bad:
         failed['I.zst_no_conjuring'] = ['safe functions returning a Gc<T> without being given a T: %s' % bad]
-    return rows, failed
+    return rows, failed, und
